@@ -229,3 +229,14 @@ func DeleteXML(keys []KV, quiet bool) []byte {
 	b.WriteString("</Delete>")
 	return []byte(b.String())
 }
+
+// AccountXML renders the admin API's account document.
+func AccountXML(access, secret, role string, uid, gid int) []byte {
+	return []byte(fmt.Sprintf("<Account><Access>%s</Access><Secret>%s</Secret><Role>%s</Role><UserID>%d</UserID><GroupID>%d</GroupID></Account>",
+		xmlEsc(access), xmlEsc(secret), xmlEsc(role), uid, gid))
+}
+
+// CreateUser calls the admin API (the client must hold admin credentials).
+func (c *Client) CreateUser(access, secret, role string, uid, gid int) (*Resp, error) {
+	return c.Call("PATCH", "/create-user", nil, nil, AccountXML(access, secret, role, uid, gid))
+}
